@@ -27,7 +27,7 @@ let fops : float numOps = {
 
 (* ---- records written by the C++ drivers ---- *)
 type mat = { rows : int; cols : int; d : float array }
-type record = { id : string; mats : (string, mat) Hashtbl.t; ints : (string, int array) Hashtbl.t }
+type record = { id : String.t; mats : (String.t, mat) Hashtbl.t; ints : (String.t, int array) Hashtbl.t }
 
 let split_ws s = List.filter (fun x -> x <> "") (String.split_on_char ' ' (String.trim s))
 
@@ -63,8 +63,8 @@ let getm r k = Hashtbl.find r.mats k
 let hasm r k = Hashtbl.mem r.mats k
 
 (* a block as the model sees it; out-of-range reads are reported, not hidden *)
-exception Oob of string
-let blk_of (name : string) (m : mat) : nat -> nat -> float =
+exception Oob of String.t
+let blk_of (name : String.t) (m : mat) : nat -> nat -> float =
   fun i j ->
     let i = int_of_nat i and j = int_of_nat j in
     if i < 0 || i >= m.rows || j < 0 || j >= m.cols then
